@@ -98,6 +98,80 @@ def build_cases(cases, features, std="c++14", compiler="g++", defines=(), opt="-
     return [c for c in cases if c.binary is None]
 
 
+def write_commands(r, case, n_buf=2, cap=24):
+    """WR commands: every top-level field (and one level of nesting) of every root structure x
+    interesting values incl. the extremes of the accessor's C++ value type."""
+    out = []
+    for si in case.roots():
+        ms = case.max_size.get(si.name)
+        length = min(cap, ms if ms is not None else cap)
+        paths = []
+        for nm, _acc, anon in si.fields:
+            if anon or nm.startswith("$"):
+                continue
+            paths.append(nm)
+        # one level of nesting
+        for f in si.type_ir["structure"].get("field", []):
+            ty = f.get("type", {})
+            if "atomic_type" in ty and not f["name"].get("is_anonymous"):
+                target = ".".join(ty["atomic_type"]["reference"]["canonical_name"]["object_path"])
+                if target in case.prepared.structs:
+                    for nm2, _a2, anon2 in case.prepared.structs[target].fields:
+                        if not anon2 and not nm2.startswith("$"):
+                            paths.append(f["name"]["name"]["text"] + "." + nm2)
+        for pv in param_values(r, si, case)[:1]:
+            bufs = embgen.buffers(r, 2 + n_buf, length)[2:]
+            bufs.append(bufs[0][:max(0, length // 2)])
+            for path in paths:
+                for val in ("0", "1", "MAX", "MIN", "-1", str(r.randrange(256)), str(r.randrange(1 << 32))):
+                    for b in bufs:
+                        out.append("WR %s %s%s %s %s" % (si.name, "".join("%d " % x for x in pv), path, val,
+                                                          b.hex() or "-"))
+    return out
+
+
+def pair_commands(r, case, n_pairs=6, cap=24, ops=("EQ", "CP", "CPO")):
+    """EQ / CP / CPO commands over pairs of buffers: equal, one bit flipped, different lengths,
+    truncated, random, and overlapping windows of one arena at every shift."""
+    out = []
+    for si in case.roots():
+        ms = case.max_size.get(si.name)
+        length = min(cap, (ms if ms is not None else cap) + 1)
+        for pv in param_values(r, si, case)[:1]:
+            ps = "".join("%d " % x for x in pv)
+            bases = embgen.buffers(r, 2 + n_pairs, length)
+            pairs = []
+            for a in bases:
+                b = bytearray(a)
+                kind = r.choice(["same", "bit", "bit", "len", "trunc", "other", "tail"])
+                if kind == "bit" and b:
+                    i = r.randrange(len(b))
+                    b[i] ^= 1 << r.randrange(8)
+                elif kind == "len":
+                    b = b + bytes([r.randrange(256)])
+                elif kind == "trunc":
+                    b = b[:r.randrange(len(b) + 1)]
+                elif kind == "other":
+                    b = bytearray(r.choice(bases))
+                elif kind == "tail" and b:
+                    b[-1] ^= 0xFF
+                pairs.append((bytes(a), bytes(b)))
+            for a, b in pairs:
+                for op in ops:
+                    if op in ("EQ", "CP"):
+                        out.append("%s %s %s%s %s" % (op, si.name, ps, a.hex() or "-", b.hex() or "-"))
+            if "CPO" in ops:
+                arena = embgen.buffers(r, 3, 2 * length + 2)[2]
+                for shift in range(-length, length + 1, max(1, length // 6)):
+                    so = length + 1 if shift < 0 else 0
+                    so = min(so, len(arena) - length)
+                    d0 = so + shift
+                    if d0 < 0 or d0 + length > len(arena):
+                        continue
+                    out.append("CPO %s %s%s %d %d %d %d" % (si.name, ps, arena.hex(), so, length, d0, length))
+    return out
+
+
 def param_values(r, si, case):
     """A few parameter assignments for a root structure."""
     if not si.params:
@@ -166,9 +240,13 @@ def run_surviving(case, cmds, on_crash, max_crashes=40):
     return answers
 
 
-def crash_key(rr):
+def crash_key(rr, cmd=""):
     """Narrow classification of a sanitizer report / CHECK abort (for known-finding routing)."""
     err = rr.err or ""
+    toks = cmd.split()
+    if toks and toks[0] == "WR" and len(toks) >= 4 and toks[-2] in ("MAX", "MIN") and \
+            "signed integer overflow" in err and "emboss_arithmetic.h" in err:
+        return "ubsan:virtual-field-CouldWriteValue-extreme-argument"
     if rr.kind == "check-failed":
         import re
         m = re.search(r"EMBOSS-CHECK-FAILED (\w+) \S*?([\w.]+):(\d+)", err)
